@@ -786,6 +786,12 @@ int _vnacal_new_add_common(vnacal_new_add_arguments_t vnaa)
 	goto out;
     }
     for (int s_cell = 0; s_cell < s_cells; ++s_cell) {
+	if (_vnacal_new_check_parameter(function, vnp,
+		    s_matrix[s_cell]) == -1) {
+	    goto out;
+	}
+    }
+    for (int s_cell = 0; s_cell < s_cells; ++s_cell) {
 	if ((full_s_matrix[s_cell_map[s_cell]] =
 		    _vnacal_new_get_parameter(function, vnp,
 			s_matrix[s_cell])) == NULL) {
